@@ -20,13 +20,14 @@ type VerifWriteState struct {
 	Closed   bool
 	Left     int
 	IsWAdded bool
+	WTimer   bool // c.wTimer != nil
 	Items    []VerifWItem
 }
 
 func (c *Conn) VerifWriteState(withBytes bool) VerifWriteState {
 	c.mux.Lock()
 	defer c.mux.Unlock()
-	st := VerifWriteState{Closed: c.closed, Left: c.left, IsWAdded: c.isWAdded}
+	st := VerifWriteState{Closed: c.closed, Left: c.left, IsWAdded: c.isWAdded, WTimer: c.wTimer != nil}
 	for _, t := range c.writeList {
 		if t.buf != nil {
 			it := VerifWItem{Len: len(*t.buf), Off: t.offset}
